@@ -41,6 +41,7 @@
 #include "scpi/error.h"
 #include "fifo_private.h"
 #include "scpi/constants.h"
+#include "scpi/verif.h"
 
 #if USE_DEVICE_DEPENDENT_ERROR_INFORMATION
 #define SCPI_ERROR_SETVAL(e, c, i) do { (e)->error_code = (c); (e)->device_dependent_info = (i); } while(0)
@@ -64,6 +65,7 @@ static void SCPI_ErrorEmitEmpty(scpi_t * context) {
     if ((SCPI_ErrorCount(context) == 0) && (SCPI_RegGet(context, SCPI_REG_STB) & STB_QMA)) {
         SCPI_RegClearBits(context, SCPI_REG_STB, STB_QMA);
 
+        SCPI_VERIF_EV(context, SCPI_VE_ERROR_EMIT, NULL, 0, 0);
         if (context->interface && context->interface->error) {
             context->interface->error(context, 0);
         }
@@ -78,6 +80,7 @@ static void SCPI_ErrorEmitEmpty(scpi_t * context) {
 static void SCPI_ErrorEmit(scpi_t * context, int16_t err) {
     SCPI_RegSetBits(context, SCPI_REG_STB, STB_QMA);
 
+    SCPI_VERIF_EV(context, SCPI_VE_ERROR_EMIT, NULL, err, 0);
     if (context->interface && context->interface->error) {
         context->interface->error(context, err);
     }
@@ -97,6 +100,7 @@ void SCPI_ErrorClear(scpi_t * context) {
     fifo_clear(&context->error_queue);
 
     SCPI_ErrorEmitEmpty(context);
+    SCPI_VERIF_EV(context, SCPI_VE_ERROR_CLEAR, NULL, 0, 0);
 }
 
 /**
@@ -112,6 +116,7 @@ scpi_bool_t SCPI_ErrorPop(scpi_t * context, scpi_error_t * error) {
 
     SCPI_ErrorEmitEmpty(context);
 
+    SCPI_VERIF_EV(context, SCPI_VE_ERROR_POP, NULL, error->error_code, 0);
     return TRUE;
 }
 
@@ -178,6 +183,7 @@ static const struct error_reg errs[ERROR_DEFS_N] = {
  */
 void SCPI_ErrorPushEx(scpi_t * context, int16_t err, char * info, size_t info_len) {
     int i;
+    SCPI_VERIF_EV(context, SCPI_VE_ERROR_PUSH, info, err, info_len);
     /* automatic calculation of length */
     if (info && info_len == 0) {
         info_len = SCPIDEFINE_strnlen(info, SCPI_STD_ERROR_DESC_MAX_STRING_LENGTH);
@@ -198,6 +204,7 @@ void SCPI_ErrorPushEx(scpi_t * context, int16_t err, char * info, size_t info_le
     if (context) {
         context->cmd_error = TRUE;
     }
+    SCPI_VERIF_EV(context, SCPI_VE_ERROR_PUSH_END, NULL, err, 0);
 }
 
 /**
